@@ -21,7 +21,7 @@ meta.update({
     "needs_to_manifest": meta.get("needs"),
     "demo_files": demos,
     "verified": "applied patch.diff to a fresh worktree of /repo: go build ./... ok; existing suite passes with the patch (demo moved away); demo_cmd fails with the patch and passes without (seedcheck.sh)",
-    "ran": "git -C /repo apply patch.diff; ./check " + catch.replace(",", " ; ./check ") + " ; git -C /repo checkout -- .",
+    "ran": "seedcheck.sh: ./check " + catch.replace(",", " ; ./check ") + " against a copy of /repo with patch.diff applied, bind-mounted over /repo in a private mount namespace (rounds 1-2: git -C /repo apply; ./check; git -C /repo checkout -- .)",
     "status": status,
     "caught_by": [c for c in catch.split(",") if c],
     "note": note,
